@@ -82,11 +82,41 @@ class Interp:
         self.loop_handler = None
 
     # ------------------------------------------------------------ symbols
+    charsets = None     # name of a declared string symbol -> characters its pattern admits (set by the generator)
+    nonempty = frozenset()   # names of declared string symbols whose pattern excludes the empty string
+
     def fresh_str(self, hint="s", printable=True):
         t = self.ctx.fresh("str", hint)
         if printable:
             self.ctx.assume(z3.InRe(t, smt.PRINTABLE))
         return SStr(t)
+
+    def replace_over_concat(self, t, a, b):
+        """replace_all(x1 ++ ... ++ xn, a, b) when no symbolic piece can contain any character of `a` (its declared
+        alphabet is disjoint from a's characters): every occurrence of `a` then lies inside a run of literal
+        pieces, so the replacement is done on the literal runs and the symbolic pieces pass through (exact)."""
+        if not (isinstance(a, str) and len(a) >= 1 and isinstance(b, str)) or self.charsets is None:
+            return None
+        leaves = _concat_leaves(t)
+        runs = []
+        for lf in leaves:
+            if z3.is_string_value(lf):
+                if runs and isinstance(runs[-1], str):
+                    runs[-1] += lf.as_string()
+                else:
+                    runs.append(lf.as_string())
+            elif z3.is_const(lf) and lf.decl().name() in self.charsets:
+                if set(a) & self.charsets[lf.decl().name()]:
+                    return None
+                runs.append(lf)
+            else:
+                return None
+        out = [z3.StringVal(r.replace(a, b)) if isinstance(r, str) else r for r in runs]
+        if not out:
+            return ""
+        r = out[0] if len(out) == 1 else z3.Concat(*out)
+        r = z3.simplify(r)
+        return r.as_string() if z3.is_string_value(r) else SStr(r)
 
     # ------------------------------------------------------------ truth / equality
     def truth(self, v):
@@ -1674,10 +1704,24 @@ class Interp:
                 out = v if out is None else self.binop(ast.Add(), self.binop(ast.Add(), out, o), v)
             return "" if out is None else out
         t = strterm(o)
-        if m == "upper":
-            return SStr(smt.UPPER(t))
-        if m == "lower":
-            return SStr(smt.LOWER(t))
+        if m in ("upper", "lower"):
+            # case mapping distributes over concatenation; it is the identity on a piece whose declared
+            # alphabet has no letter of the other case (exact)
+            f = smt.UPPER if m == "upper" else smt.LOWER
+            leaves = _concat_leaves(t)
+            if len(leaves) > 1 or self.charsets is not None:
+                out = []
+                for lf in leaves:
+                    if z3.is_string_value(lf):
+                        out.append(z3.StringVal(getattr(lf.as_string(), m)()))
+                    elif (self.charsets is not None and z3.is_const(lf) and lf.decl().name() in self.charsets
+                          and not any((c.islower() if m == "upper" else c.isupper()) for c in self.charsets[lf.decl().name()])):
+                        out.append(lf)
+                    else:
+                        out.append(f(lf))
+                r = z3.simplify(out[0] if len(out) == 1 else z3.Concat(*out))
+                return r.as_string() if z3.is_string_value(r) else SStr(r)
+            return SStr(f(t))
         if m in ("startswith", "endswith"):
             a = args[0]
             alts = list(a) if isinstance(a, tuple) else [a]
@@ -1709,6 +1753,9 @@ class Interp:
                 raise Unsupported("replace of empty string")
             if is_sym(a):
                 raise Unsupported("replace with symbolic pattern")
+            simp = self.replace_over_concat(t, a, b)
+            if simp is not None:
+                return simp
             return SStr(smt.REPLACE_ALL(t, strterm(a), strterm(b)))
         if m == "split":
             if len(args) == 1 and isinstance(args[0], str) and args[0]:
@@ -1726,7 +1773,46 @@ class Interp:
                 return SInt(idx)
         raise Unsupported("str.%s" % m)
 
+    def strip_structural(self, t, mode):
+        """strip over a concatenation whose outermost non-blank piece is a declared symbol that is never empty and
+        whose alphabet has no white space: the blanks are exactly the literal characters outside it (exact)"""
+        if self.charsets is None:
+            return None
+        leaves = _concat_leaves(t)
+
+        def solid(lf):
+            return (z3.is_const(lf) and not z3.is_string_value(lf) and lf.decl().name() in self.charsets
+                    and lf.decl().name() in self.nonempty and not any(c in smt.WSCHARS for c in self.charsets[lf.decl().name()]))
+
+        def trim(seq, left):
+            seq = list(seq)
+            while seq:
+                lf = seq[0] if left else seq[-1]
+                if z3.is_string_value(lf):
+                    txt = lf.as_string()
+                    txt2 = txt.lstrip(smt.WSCHARS) if left else txt.rstrip(smt.WSCHARS)
+                    if txt2:
+                        seq[0 if left else -1] = z3.StringVal(txt2)
+                        return seq
+                    seq.pop(0 if left else -1)
+                    continue
+                return seq if solid(lf) else None
+            return seq
+        if mode != "rstrip":
+            leaves = trim(leaves, True)
+        if leaves is not None and mode != "lstrip":
+            leaves = trim(leaves, False)
+        if leaves is None:
+            return None
+        if not leaves:
+            return ""
+        r = z3.simplify(leaves[0] if len(leaves) == 1 else z3.Concat(*leaves))
+        return r.as_string() if z3.is_string_value(r) else SStr(r)
+
     def strip(self, t, mode):
+        st = self.strip_structural(t, mode)
+        if st is not None:
+            return st
         ws = z3.Union(*[z3.Re(c) for c in smt.WSCHARS])
         wss = z3.Star(ws)
         r = self.ctx.fresh("str", "strip")
@@ -1750,6 +1836,12 @@ class Interp:
         if m == "get":
             k = args[0]
             dflt = args[1] if len(args) > 1 else kwargs.get("default")
+            if isinstance(k, tuple) and any(is_sym(x) for x in k):
+                # tuple key with symbolic components against a dict with concrete tuple keys: case split per key
+                for kk in list(o):
+                    if isinstance(kk, tuple) and len(kk) == len(k) and self.truth(self.eq(list(k), list(kk))):
+                        return o[kk]
+                return dflt
             if not is_sym(k):
                 try:
                     return o.get(k, dflt)
@@ -1898,11 +1990,58 @@ class Interp:
                 import re as _re
                 return getattr(_re, name[3:])(pat, s) is not None
             return ReMatch(z3.InRe(strterm(s), rx))
+        if name == "re.sub":
+            pat, repl, subj = args[0], args[1], args[2]
+            if is_sym(pat) or is_sym(repl) or len(args) > 3 or kwargs:
+                raise Unsupported("re.sub with symbolic pattern / count / flags")
+            if isinstance(subj, str):
+                import re as _re
+                return _re.sub(pat, repl, subj)
+            chars = _single_char_class(pat)
+            if chars is None or any(c in repl for c in chars):
+                raise Unsupported("re.sub pattern other than a single character class")
+            # removing / replacing every character of a class = one replace_all per character (order immaterial
+            # because the replacement contains none of them)
+            cur = subj
+            for c in chars:
+                simp = self.replace_over_concat(strterm(cur), c, repl) if self.charsets is not None else None
+                cur = simp if simp is not None else SStr(smt.REPLACE_ALL(strterm(cur), z3.StringVal(c), z3.StringVal(repl)))
+            return cur
         if name == "copy.deepcopy":
             return self.b_deepcopy(args[0])
         if name == "json.dumps":
             return Opaque("json.dumps", args)
         raise Unsupported("external call %s" % name)
+
+
+def _concat_leaves(t):
+    if z3.is_app(t) and t.decl().kind() == z3.Z3_OP_SEQ_CONCAT:
+        out = []
+        for c in t.children():
+            out.extend(_concat_leaves(c))
+        return out
+    return [t]
+
+
+def _single_char_class(pat):
+    """characters of a pattern of the form [abc] (escapes allowed, no ranges / negation), else None"""
+    if not (isinstance(pat, str) and len(pat) >= 3 and pat[0] == "[" and pat[-1] == "]" and pat[1] != "^"):
+        return None
+    body, out, i = pat[1:-1], [], 0
+    while i < len(body):
+        c = body[i]
+        if c == "\\":
+            i += 1
+            if i >= len(body) or body[i].isalnum():
+                return None
+            c = body[i]
+        elif c == "-" and 0 < i < len(body) - 1:
+            return None
+        elif c in "[]":
+            return None
+        out.append(c)
+        i += 1
+    return out
 
 
 def _top_level_alternation(pat):
